@@ -2022,7 +2022,7 @@ func c09Subset(vs *c09VS, target int64) []int {
 	return nil
 }
 
-var c09CollusionKinds = []string{"trust-exact", "trust-above", "nextvals-overlap", "nextvals-foreign", "own-exact", "own-above", "double-vote"}
+var c09CollusionKinds = []string{"trust-exact", "trust-above", "nextvals-overlap", "nextvals-foreign", "own-exact", "own-above", "double-vote", "own-exact-nil", "own-half-nil"}
 var c09CollusionFixed = []string{"time-future-eq", "time-future-ok", "expired-eq", "expired-ok", "time-equal",
 	"wit-noresp", "wit-notfound", "wit-behind", "wit-ctx", "wit-bad", "back-forged-chain", "back-forged-target", "back-genuine"}
 
@@ -2102,16 +2102,32 @@ func c09Collusion(r *vg.Rand, what string, seq bool, num, den uint64) *c09Scn {
 		}
 		i := forgedAt(T, f, "forged(adjacent, foreign set #"+strconv.Itoa(f.idx)+")")
 		collude[T] = []c09Reply{c09B(i)}
-	case "own-exact", "own-above":
+	case "own-exact", "own-above", "own-exact-nil", "own-half-nil":
 		p := tot * 2 / 3
 		if what == "own-above" {
 			p++
+		}
+		if what == "own-half-nil" {
+			p = tot / 2
 		}
 		co := c09Subset(V, p)
 		sp := sc.gspec[T]
 		sp.kind = fmt.Sprintf("genuine header, signers %v power %d of %d", co, p, tot)
 		sp.hdr = sc.blocks[sc.gen[T]].lb.Header
 		sp.modes = make([]c09Mode, len(V.keys))
+		if what == "own-exact-nil" || what == "own-half-nil" {
+			// a FORGED header (other app hash) signed by the coalition; the honest validators'
+			// genuine precommits for nil of that height and round fill the other slots
+			sp.hdr = nil
+			sp.app = c09H("forged-app")
+			sp.kind = fmt.Sprintf("forged header, signers %v power %d of %d", co, p, tot)
+			// everybody else precommitted nil, with a valid signature: power that signed nil is
+			// not power that signed the header
+			sp.kind += ", all others precommit nil (valid signatures)"
+			for i := range sp.modes {
+				sp.modes[i].k = c09Nil
+			}
+		}
 		for _, i := range co {
 			sp.modes[i].k = c09Good
 		}
